@@ -67,9 +67,14 @@ var properties = []Property{
 		LevelNote:  "Trusted: go/ssa; math/time/rand semantics. The denotation table is written from the statement and confirmed by reading.",
 	},
 	 {ID: "C09"}, {ID: "C10"},
-	{ID: "C11"}, 
+	
+	{ID: "C11", Title: "The string scanner is a faithful cursor with position-only line/column",
+		Rules:     []string{"CUR.linerule", "CUR.range", "CUR.pure", "CUR.siblings", "CUR.unread", "PANIC.index"},
+		Technique: "truth-table extraction by constant folding over the finite character partition; who-may-write and dominating-guard analysis of the cursor field; path classification of Unread; sibling agreement of the classification window",
+	},
+	 
 	{ID: "C12", Title: "Every token reports the line and column of its first character",
-		Rules:     []string{"POS.capture", "POS.stale"},
+		Rules:     []string{"POS.capture", "POS.stale", "CUR.siblings", "CUR.unread", "CUR.linerule"},
 		Technique: "same abstract interpretation: where, relative to the first Read, each state samples Line/Column/PeekLine/PeekColumn",
 	},
 	 {ID: "C13"}, {ID: "C14"}, 
